@@ -598,6 +598,14 @@ impl World {
             self.fail("C08", format!("operation {} aborted the calling thread: {}", kind, msg_prefix(&msg)));
             return;
         }
+        // the observations that follow call the library too (read, get_value, get_winner, ... on every replica):
+        // a call that never returns there is a hang of the library just the same, so the watchdog stays armed
+        {
+            let mut cur = CURRENT.lock().unwrap();
+            let next = cur.clone().map(|(p, _)| (p, format!("read-only calls (read / get_value / get_winner / get_delta ...) after op #{} {}", self.op_index, js(op))));
+            *cur = next;
+        }
+        OP_START.store(now_ms(), Ordering::SeqCst);
         let tail = catch_unwind(AssertUnwindSafe(|| {
             self.register_keys();
             self.check_stores();
@@ -608,6 +616,7 @@ impl World {
                 self.after_op(i);
             }
         }));
+        OP_START.store(0, Ordering::SeqCst);
         if tail.is_err() && self.fails.is_empty() {
             self.fail("C08", format!("observation after operation {} aborted", kind));
         }
@@ -880,6 +889,7 @@ impl World {
             "meld" => self.op_meld(r, op["from"].as_u64().unwrap() as usize % self.reps.len()),
             "refresh" => self.op_refresh(r),
             "reload" => self.op_reload(r),
+            "stage_commit_replay" => self.op_stage_commit_replay(r, op.get("info").cloned().unwrap_or(Value::Null)),
             "reopen" => self.op_reopen(r),
             "resolve" => self.op_resolve(r, op["pick"].as_u64().unwrap() as usize, op["k"].as_u64().unwrap() as usize),
             "unstage" => self.op_unstage(r),
@@ -1590,8 +1600,64 @@ impl World {
         if after != before {
             fails.push(("C15", format!("export, discard and replay does not restore the staged state: {}", first_diff(&before, &after))));
         }
+        // C18 / C15: `stage()` lists the records of one object in hash-map order, so a replay must not depend on the
+        // order of the records: discard again and replay the same export with its records reversed
+        let reversed: Option<Value> = s.as_ref().and_then(|v| {
+            let recs = v.get("c")?.as_array()?;
+            if recs.len() < 2 {
+                return None;
+            }
+            let mut v2 = v.clone();
+            let mut rv = recs.clone();
+            rv.reverse();
+            v2.as_object_mut()?.insert("c".into(), Value::from(rv));
+            Some(v2)
+        });
+        if let (Some(s2), true) = (reversed, fails.is_empty()) {
+            let s2 = Some(s2);
+            let m = self.reps[r].m.as_mut().unwrap();
+            let _ = m.unstage();
+            self.emit("unstage", r, "ok", json!({}));
+            let m = self.reps[r].m.as_mut().unwrap();
+            let res2 = m.replay_stage(&s2);
+            let after2 = modulo_stored(obs_full(m));
+            self.emit("replay", r, "ok", json!({"stage": s2}));
+            self.stat("replay_reversed_records");
+            if res2.is_err() || after2 != before {
+                let w = format!("replaying an exported stage with its change records in reverse order (the export lists them in hash-map order) gives another state: {}", first_diff(&before, &after2));
+                fails.push(("C18", w.clone()));
+                fails.push(("C15", w));
+            }
+        }
         for (p, w) in fails {
             self.fail(p, w);
+        }
+    }
+
+    /// C15: an export is replayed AFTER its changes have been committed (the application saved a stage, committed,
+    /// and replays the saved stage - on this replica, or it arrives late): every record names a revision that is
+    /// already recorded, every body is already stored, so nothing may change - in particular no committed revision
+    /// may turn into a staged one that a later `unstage` would drop
+    fn op_stage_commit_replay(&mut self, r: usize, info: Value) {
+        let m = self.reps[r].m.as_ref().unwrap();
+        if !m.has_staging() {
+            return;
+        }
+        let s = m.stage().unwrap();
+        self.emit("export", r, "ok", json!({"stage": s}));
+        self.op_commit(r, info);
+        let m = self.reps[r].m.as_ref().unwrap();
+        if m.has_staging() {
+            return; // the commit did not go through
+        }
+        let before = obs_full(m);
+        let res = m.replay_stage(&s);
+        let m = self.reps[r].m.as_ref().unwrap();
+        let after = obs_full(m);
+        self.emit("replay", r, "ok", json!({"stage": s}));
+        self.stat("replay_after_commit");
+        if res.is_err() || after != before {
+            self.fail("C15", format!("replaying an export whose changes have all been committed since changed the replica: {}", first_diff(&before, &after)));
         }
     }
 
@@ -3204,7 +3270,9 @@ pub fn gen_op(w: &World, g: &mut Rng, sim_faults: bool) -> Value {
         69..=72 => json!({"op": "reopen", "r": r}),
         73..=74 => json!({"op": "unstage", "r": r}),
         75..=77 => {
-            if staged {
+            if staged && g.chance(1, 3) {
+                json!({"op": "stage_commit_replay", "r": r, "info": info(g)})
+            } else if staged {
                 json!({"op": "stage_replay", "r": r})
             } else {
                 json!({"op": "refresh", "r": r})
